@@ -526,6 +526,39 @@ func c17Uncovered(ts []c17Type) []string {
 	return out
 }
 
+// c17Triples: three threads, one call each (thorough tier, limiter stacks and registries).
+func c17Triples(ty c17Type, pb int) *mc.Scenario {
+	type triple struct{ a, b, c int }
+	var ts []triple
+	for i := range ty.ops {
+		for j := i; j < len(ty.ops); j++ {
+			for k := j; k < len(ty.ops); k++ {
+				ts = append(ts, triple{i, j, k})
+			}
+		}
+	}
+	return &mc.Scenario{
+		Name:        "C17/triples/" + ty.name,
+		Params:      fmt.Sprintf("%d calls, %d unordered triples, three threads on one shared instance", len(ty.ops), len(ts)),
+		Cfg:         vrt.Config{MaxSteps: 6000, Horizon: int64(time.Minute)},
+		MonitorOnce: true,
+		Body: func(x *mc.Exec) {
+			p := ts[vrt.Choose(len(ts))]
+			inst := ty.mk()
+			x.Aux = ty.ops[p.a].name + " || " + ty.ops[p.b].name + " || " + ty.ops[p.c].name
+			a := vrt.Go(func() { ty.ops[p.a].do(inst) })
+			b := vrt.Go(func() { ty.ops[p.b].do(inst) })
+			cc := vrt.Go(func() { ty.ops[p.c].do(inst) })
+			vrt.Join(a, b, cc)
+			if ty.done != nil {
+				ty.done(inst)
+			}
+			x.MarkConflict()
+		},
+		Post: c17Scenario(ty, pb).Post,
+	}
+}
+
 func runC17(c *Ctx) {
 	if !vrt.RaceMode {
 		c.Out.Notes = append(c.Out.Notes, "binary built without -race: C17 cannot run")
@@ -556,5 +589,12 @@ func runC17(c *Ctx) {
 	}
 	for _, ty := range types {
 		c.Explore(c17Scenario(ty, pb), mc.Options{PreemptBound: pb, NoCache: true})
+	}
+	if c.Thorough() {
+		for _, ty := range types {
+			if strings.HasPrefix(ty.name, "limiter.") || strings.Contains(ty.name, "MetricRegistry") || strings.HasPrefix(ty.name, "strategy.Lookup") || strings.HasPrefix(ty.name, "strategy.PredicatePartitionStrategy") {
+				c.Explore(c17Triples(ty, 2), mc.Options{PreemptBound: 2, NoCache: true})
+			}
+		}
 	}
 }
